@@ -81,10 +81,12 @@ func snapshot() []gsnap {
 	return out
 }
 
-// parked: blocked on a channel, mutex, cond or semaphore — states that only
-// another goroutine of the process can end (no timer, no netpoller, no syscall).
+// parked: blocked on a channel, mutex or cond — states that only another
+// goroutine of the process can end (no timer, no netpoller, no syscall). Bare
+// "semacquire" is NOT parked: a goroutine that wants to start a GC cycle waits
+// there for the world semaphore the snapshot itself holds.
 func parked(state string) bool {
-	for _, p := range []string{"chan receive", "chan send", "select", "sync.", "semacquire"} {
+	for _, p := range []string{"chan receive", "chan send", "select", "sync."} {
 		if strings.HasPrefix(state, p) {
 			return true
 		}
@@ -536,7 +538,8 @@ func (e *env) groupTaintedLocked(ls []*lst) bool {
 func (e *env) witnessLocked(o *openRec, l *lst) map[string]any {
 	w := map[string]any{"trace": append([]string(nil), e.trace...)}
 	if o != nil {
-		w["open"] = map[string]any{"id": o.id, "type": o.chanType, "addr": o.addr(), "payload": mon.FullHex(o.payload), "malformed": o.malformed, "intent": o.intent, "sentSeq": o.sentSeq, "quiet": o.quiet}
+		w["open"] = map[string]any{"id": o.id, "type": o.chanType, "addr": o.addr(), "payload": mon.FullHex(o.payload), "malformed": o.malformed, "intent": o.intent, "sentSeq": o.sentSeq, "quiet": o.quiet,
+			"outcome": [...]string{"unanswered", "confirmed", "rejected", "connection error"}[o.outcome], "reject_reason": fmt.Sprint(o.reason), "reject_message": o.rejectMsg}
 	}
 	if l != nil {
 		w["listener"] = map[string]any{"id": l.id, "addr": l.addr(), "kind": l.plan.kindName(), "listenSeq": l.listenSeq, "closeCallSeq": l.closeCallSeq, "closeRetSeq": l.closeRetSeq}
@@ -999,10 +1002,17 @@ func (e *env) unresolvedLocked() int {
 // reason for the connection to stall; blocked operations are then not judged.
 func (e *env) backlogLocked(min int, exceptAddr string) bool {
 	for _, l := range e.lsts {
-		if l.addr() == exceptAddr || l.acceptPending || l.acceptEnded {
+		if l.addr() == exceptAddr {
 			continue
 		}
-		if e.unacceptedLocked(l) >= min {
+		if l.eager && !l.acceptEnded {
+			continue // an Accept loop is running
+		}
+		u := e.unacceptedLocked(l)
+		if l.acceptPending {
+			u-- // one outstanding Accept call takes one forward
+		}
+		if u >= min {
 			return true
 		}
 	}
@@ -1060,7 +1070,7 @@ func (e *env) doListen(p lplan) *lst {
 				diag += fmt.Sprintf("\n g%s [%s] %s", g.ID, g.State, strings.Join(fr, " < "))
 			}
 		}
-		diag += fmt.Sprintf("\nlastSnap=%v pre=%v", lastSnap, e.pre)
+		diag += fmt.Sprintf("\nlastSnap=%v", lastSnap)
 		e.inconclusive("Listen did not return (not part of the property): state " + fmt.Sprint(st) + diag + "\ntrace: " + strings.Join(e.traceCopy(), " | "))
 		return nil
 	}
@@ -1146,7 +1156,8 @@ func (e *env) doOpens(n int, sync bool, mk func() *openRec) []*openRec {
 			break
 		}
 		o := mk()
-		o.quiet = e.settledOK && e.unresolvedLocked() == 0
+		// quiet: alone on a settled connection, and the system settles again before anything else is sent
+		o.quiet = sync && n == 1 && e.settledOK && e.unresolvedLocked() == 0
 		if len(e.trace) < 400 {
 			e.trace = append(e.trace, fmt.Sprintf("Open#%d %s %s quiet=%v sync=%v %s", o.id, o.chanType, o.addr(), o.quiet, sync, o.malformed))
 		}
